@@ -297,10 +297,9 @@ fn result_defined(q: &Query, b: &[Elt]) -> bool {
         let col: Vec<&Val> = b.iter().map(|e| &e.0[i]).collect();
         if !homog(&col) { return false; }
     }
-    if q.distinct {
-        let dirs: Vec<bool> = q.keys.iter().map(|k| k.1).collect();
-        for x in b { for y in b { if norm_row(&x.1) == norm_row(&y.1) && lex_cmp(&dirs, &x.0, &y.0) != Ordering::Equal { return false; } } }
-    }
+    // the output row determines the keys up to equivalence (pay_fixes_key)
+    let dirs: Vec<bool> = q.keys.iter().map(|k| k.1).collect();
+    for x in b { for y in b { if norm_row(&x.1) == norm_row(&y.1) && lex_cmp(&dirs, &x.0, &y.0) != Ordering::Equal { return false; } } }
     true
 }
 /// rows_chk of Model/SortSpec.v
@@ -327,8 +326,22 @@ fn result_chk(q: &Query, b: &[Elt], rows: &[Vec<Val>]) -> bool {
     picked.len() == win.len() && picked.iter().zip(win.iter()).all(|(p, w)| lex_cmp(&dirs, &p.0, &w.0) == Ordering::Equal)
 }
 
-/// rough tag of the recorded finding classes (search mode only; authoritative: known_class_q in Model/SortImpl.v)
-fn rough_class(ncols: usize, q: &Query) -> u32 {
+/// rough tag of the recorded finding classes (search mode / statistics only; authoritative:
+/// known_class_case in Model/SortImpl.v)
+fn rough_class(t: &Table, q: &Query) -> u32 {
+    let k = rough_class_q(t.cols.len(), q);
+    if k != 0 { return k; }
+    if q.distinct {
+        let oc = q.out_cols(t.cols.len());
+        let negzero = t.rows.iter().any(|r| {
+            if let Some(w) = q.wher { match r.get(0) { Some(Val::Int(i)) if *i > w => {}, _ => return false } }
+            oc.iter().any(|c| matches!(r.get(*c), Some(Val::Float(b)) if *b == 1u64 << 63))
+        });
+        if negzero { return 7; }
+    }
+    0
+}
+fn rough_class_q(ncols: usize, q: &Query) -> u32 {
     let has_order = !q.keys.is_empty();
     let has_window = q.limit.is_some() || q.offset.is_some();
     let expr_key = q.keys.iter().any(|(k, _)| matches!(k, Key::Expr(_)));
@@ -550,7 +563,7 @@ fn emit(w: &mut CaseWriter, sut: &mut Sut, t: &Table, q: &Query, stream: &str) {
     w.count(out.bucket(), 1);
     w.count(path_of(q), 1);
     if !defined { w.count("spec:no_demand", 1); }
-    let k = rough_class(ncols, q);
+    let k = rough_class(t, q);
     if k != 0 { w.count(&format!("class:{}", k), 1); }
     if q.keys.iter().any(|(k, _)| matches!(k, Key::Expr(_))) { w.count("key:expression", 1); }
     if q.keys.iter().any(|(k, _)| matches!(k, Key::Expr(KExpr::Int(_)))) { w.count("key:ordinal", 1); }
@@ -611,7 +624,11 @@ fn gen_kexpr(rng: &mut Rng, int_cols: &[usize], all_cols: usize, depth: usize, a
 fn gen_query(rng: &mut Rng, t: &Table, safe: bool) -> Query {
     let ncols = t.cols.len();
     let n = t.rows.len() as i64;
-    let int_cols: Vec<usize> = (1..ncols).filter(|c| t.cols[*c] == ColTy::Int).collect();
+    // columns usable in key expressions: integer columns with small values (no overflow in the
+    // products of a depth-2 expression); the full stream also uses text columns (NULL keys in
+    // TurDB, no demand in the reference) -- never float columns (float arithmetic is not modelled)
+    let small = |c: usize| t.rows.iter().all(|r| match &r[c] { Val::Int(i) => i.abs() <= 1000, _ => true });
+    let int_cols: Vec<usize> = (1..ncols).filter(|c| (t.cols[*c] == ColTy::Int && small(*c)) || (!safe && t.cols[*c] == ColTy::Text)).collect();
     let distinct = rng.chance(1, 3);
     // select list
     let sel = if rng.chance(1, 6) { Sel::Star } else {
@@ -831,7 +848,7 @@ fn search(a: &Args) {
                 if result_defined(&q, &b) {
                     let ok = match sut.observe(&t, &q) { QOut::Rows(rows) => result_chk(&q, &b, &rows), _ => false };
                     if !ok {
-                        let k = rough_class(t.cols.len(), &q);
+                        let k = rough_class(&t, &q);
                         if fails.len() < 60 && (k == 0 || fails.len() < 30) { fails.push(format!("{} #k={}", replay_line(&t, &q), k)); }
                     }
                 }
